@@ -8,7 +8,7 @@ import (
 
 func init() {
 	register(&Meta{ID: "C06", Level: "exploration", QuickSec: 40, ThoroSec: 900, WallMaxS: 120,
-		Rule: "each run = seeded plan: stable cluster of 2-4 members, R 2-3, read-repair on/off; for 1-4 keys a sequence of 4-14 steps creates conflicting copies with chosen timestamps relative to the newest existing copy (older, equal = tie, newer, far newer): entries planted on a chosen backup with the replication command DM.PUTENTRY, backup copies removed with DM.DELENTRY RC, ordinary Puts while one backup is cut off (so it stays stale), fragment packs (the bytes fragment.Move sends) delivered with INTERNAL.NODE.MOVEFRAGMENT to the primary or a backup owner in seeded order and 1-3 times each; a census of all copies (DM.GETENTRY [RC] on every member) is taken before and after every step and around every Get; oracle: a Get returns a copy with the maximal timestamp of the census (any of the tied ones); after a merge the receiving copy is the newest of (previous copy, delivered entry) whatever the order and repetition; with read-repair one Get makes the owner's copy and every backup copy equal to the winner, without read-repair a Get changes nothing; non-trivial = a Get or merge ran while at least two copies carried different timestamps; distinct = step-kind sequences x schedule fingerprints",
+		Rule: "each run = seeded plan: stable cluster of 2-4 members, R 2-3, read-repair on/off; for 1-4 keys a sequence of 4-14 steps creates conflicting copies with chosen timestamps relative to the newest existing copy (older, equal = tie, newer, far newer): entries planted on a chosen backup with the replication command DM.PUTENTRY, backup copies removed with DM.DELENTRY RC, the owner's own copy removed with DM.DELENTRY (an owner that took the partition over without its data), ordinary Puts while one backup is cut off (so it stays stale), fragment packs (the bytes fragment.Move sends) delivered with INTERNAL.NODE.MOVEFRAGMENT to the primary or a backup owner in seeded order and 1-3 times each; a census of all copies (DM.GETENTRY [RC] on every member) is taken before and after every step and around every Get; oracle: a Get returns a copy with the maximal timestamp of the census (any of the tied ones); after a merge the receiving copy is the newest of (previous copy, delivered entry) whatever the order and repetition; with read-repair one Get makes the owner's copy and every backup copy equal to the winner, without read-repair a Get changes nothing; non-trivial = a Get or merge ran while at least two copies carried different timestamps; distinct = step-kind sequences x schedule fingerprints",
 		Assume: []string{"membership stable; copies on previous owners are not constructed (they arise in C03's hand-overs)", "per-member clock skew does not exist in the simulator: timestamp conflicts are constructed with the replication commands instead"},
 	}, genC06, oracleC06)
 }
@@ -40,10 +40,13 @@ func genC06(seed uint64, tier string) *plan.Plan {
 			case x < 22:
 				sc.Ops = append(sc.Ops, plan.Op{K: "ctl.plant", Tag: "backup", Key: k, Val: val, Delta: delta, M: r.Intn(3)})
 				sig += "b"
-			case x < 30:
+			case x < 27:
 				sc.Ops = append(sc.Ops, plan.Op{K: "ctl.plant", Tag: "delbackup", Key: k, M: r.Intn(3)})
 				sig += "d"
-			case x < 48:
+			case x < 33:
+				sc.Ops = append(sc.Ops, plan.Op{K: "ctl.plant", Tag: "delprimary", Key: k})
+				sig += "D"
+			case x < 49:
 				sc.Ops = append(sc.Ops, plan.Op{K: "ctl.plant", Tag: "merge", Key: k, Val: val, Delta: delta, Count: r.Range(1, 3)})
 				sig += "m"
 			case x < 58:
